@@ -29,6 +29,7 @@ def make_config(seed, tier="quick"):
     out0 = r.choice([1, 1, 2, 7, 100, 2**31, 10**12])
     return dict(
         u8=random.Random(seed ^ 0xC05A8).random() < 0.3,  # non-ASCII values in application messages (separate stream)
+        empty_vals=random.Random(seed ^ 0xC05E0).random() < 0.25,  # fields with an empty value, outbound and echoed from inbound
         seed=seed,
         eut_role=r.choice(["acceptor", "initiator"]),
         hb=r.choice([2, 5, 30, 1000]),
@@ -152,6 +153,8 @@ class OutboundSim(PeerSim):
             m = FIXMessage(t, {11: mark, 55: "NQ", 54: "2", 38: k + 1, 44: "7.5"})
             if self.cfg.get("u8"):
                 m[58] = f"n\u00f6te {k} \u20ac\u4e2d\U0001f600"
+            if self.cfg.get("empty_vals") and k % 3 == 0:
+                m[58] = ""
             return m
         if t == "D34":
             # a new message object that happens to carry a MsgSeqNum already (copied from a received or
@@ -192,7 +195,8 @@ class OutboundSim(PeerSim):
             if kind == "rr":
                 p.send("2", [("7", x), ("16", y)], spec={"stim": "rr"})
             elif kind == "testreq":
-                p.send("1", [("112", f"PT{self.n_stim}")], spec={"stim": "tr"})
+                tid = "" if self.cfg.get("empty_vals") and self.n_stim % 2 else f"PT{self.n_stim}"
+                p.send("1", [("112", tid)], spec={"stim": "tr"})
             elif kind == "hb":
                 p.send("0", [], spec={"stim": "hb"})
             elif kind == "hb_wrong":
